@@ -74,7 +74,7 @@ func (v *Variant) Desc() string {
 // ClassKey is the canonical class of the variant: the classes of its changed headers.
 func (v *Variant) ClassKey() string {
 	if len(v.Sites) == 0 {
-		return "original"
+		return "original(" + v.Fx.Name + ")"
 	}
 	p := make([]string, len(v.Sites))
 	for i, s := range v.Sites {
@@ -119,7 +119,10 @@ type fxPlan struct {
 	spineF func(l *Layout, root *space.Node) func(n *space.Node, path []int) bool
 }
 
-func newPlan(fx *space.Fixture, spineTx int) (*fxPlan, error) {
+// newPlan: spineTx = number of leading transactions whose spine takes part in d=2;
+// d1Spine = restrict the d=1 sites of this fixture to its spine (used in the quick tier for
+// the large harness-built blocks, whose inner content repeats that of the real fixtures).
+func newPlan(fx *space.Fixture, spineTx int, d1Spine bool) (*fxPlan, error) {
 	orig, err := space.Parse(fx.Cbor)
 	if err != nil {
 		return nil, fmt.Errorf("fixture %s: own reader: %w", fx.Name, err)
@@ -217,8 +220,12 @@ func newPlan(fx *space.Fixture, spineTx int) (*fxPlan, error) {
 			panic(fmt.Sprintf("fixture %s does not follow its era layout: %v", fx.Name, err))
 		}
 		c.lay = l
-		c.sites = space.Sites(c.root, p.filter(l, c.root))
 		c.spine = space.Sites(c.root, p.spineF(l, c.root))
+		if d1Spine {
+			c.sites = c.spine
+		} else {
+			c.sites = space.Sites(c.root, p.filter(l, c.root))
+		}
 		return c
 	}
 	if _, err := Locate(orig, fx.Type); err != nil {
@@ -247,7 +254,15 @@ type enumStats struct {
 	PerFixtureSite map[string][2]int
 }
 
-func enumerate(c *vlib.Check, plans []*fxPlan, doD2 bool, deadline time.Time, handle func(v *Variant)) *enumStats {
+// topLevel roles: the containers directly under the block (and the block itself).
+var topLevel = map[string]bool{
+	"block": true, "header": true, "txbodies-array": true, "witnesses-array": true, "aux-map": true, "invalid-array": true,
+	"byron-body": true, "txpayload-array": true, "dijkstra-body": true, "txs-array": true, "ebb-body": true,
+}
+
+// enumerate: d2mode 0 = no pairs, 1 = pairs with at least one top-level container, 2 = all spine pairs.
+func enumerate(c *vlib.Check, plans []*fxPlan, d2mode int, deadline time.Time, handle func(v *Variant)) *enumStats {
+	doD2 := d2mode > 0
 	st := &enumStats{PerFixtureD1: map[string]int64{}, PerFixtureD2: map[string]int64{}, PerFixtureSite: map[string][2]int{}}
 	var mu sync.Mutex
 	// originals first
@@ -303,6 +318,15 @@ func enumerate(c *vlib.Check, plans []*fxPlan, doD2 bool, deadline time.Time, ha
 		}
 		a := ctx.spine[sh.i]
 		rest := ctx.spine[sh.i+1:]
+		if d2mode == 1 && !topLevel[ctx.lay.RoleAt(ctx.root, a.Path)] {
+			var f []space.Site
+			for _, b := range rest {
+				if topLevel[ctx.lay.RoleAt(ctx.root, b.Path)] {
+					f = append(f, b)
+				}
+			}
+			rest = f
+		}
 		old := a.Node.Form
 		for _, fa := range a.Alts {
 			a.Node.Form = fa
